@@ -20,6 +20,14 @@ CHECKS = {
          "Every reachable product state of each strict front-end up to nesting D (3 quick / 5 thorough) is visited and every one of the 256 byte values, plus end of input, is executed on the real code from it and compared with a reference pushdown recogniser; the []byte entry point is run on every explored input. Within the bound this is a complete decision of the accept set, which no finite list of documents gives.",
          "Trusted: the jsonref recogniser (cross-checked against encoding/json.Valid on every explored input), the abstract state key (mode, nextMode, literal index, container stack shape, number threshold flags), nesting bound D.",
          "DESIGN.md §2.1, §3 C01", "bytemc"),
+ "C06": (MC, "explicit-state BFS over all six byte machines (256 bytes per state, reader faults injected at every chunk boundary) + bounded-exhaustive token-sequence / plan / tree enumeration for the recursive parsers",
+         "Leg A visits every reachable abstract state of each of the six byte state machines (single- and multi-document) up to the nesting bound and executes all 256 byte values, end of input and one injected reader fault per chunk boundary through the reader and []byte entry points, under recover. Legs B-D enumerate every token sequence up to the length bound into the JSONPath/script parsers, every asm function x arity x argument-kind vector, and every small tree into Unmarshal/Recompose for 26 target types. A panic anywhere is a violation with the input as witness; hangs are caught by the worker watchdog.",
+         "Trusted: abstract state key (merged states behave alike for control flow), the token / argument / target alphabets; DESIGN.md §2.5 reading of 'runtime fault' (masked 'runtime error:' error results are counted, not violations).",
+         "DESIGN.md §3 C06", "bytemc"),
+ "C09": (MC, "explicit-state BFS for the state set, then exhaustive whitespace-insertion x offending-byte x chunking enumeration per state",
+         "For the witness of every reachable product state, every placement of whitespace/newline insertions at inter-token positions, every offending byte the reference rejects (and end of input when incomplete), two tails and every chunking (whole, one chunk, byte-wise, every 2-split, split after each newline) is executed on all strict front-ends and the reported line:column compared with the byte-exact expectation computed from the input.",
+         "Trusted: jsonref decides the first offending byte; BOM-less inputs; insertion count bound (1 quick, 2 thorough).",
+         "DESIGN.md §3 C09", "bytemc"),
 }
 
 NOT_YET = {
